@@ -1,5 +1,7 @@
 import MorfuseModel.Sched.Snapshot
 import MorfuseModel.Sched.MachineHostSL
+import MorfuseModel.Sched.MachineHostSLTrace
+import MorfuseModel.Props.C06
 /-!
 # C09 — save, reset, load resumes scripts exactly where an uninterrupted run would be
 
@@ -154,5 +156,57 @@ example : HInv3 (load (killAllInsts (runOps (runOps {} demoSL) [.step 5, .takeOu
             intro e; exact absurd e.symm h50
           simp [Tbl.getD, Tbl.find, List.find?, hb] at hx
       subst this; rfl)).2
+
+/-! ## Trace level over all driver commands: a `load` restarts the history from the snapshot's history
+
+`reachableSL_ledgers` (`Sched/MachineHostSLTrace.lean`): every state reachable with any driver commands, `save` and `load`
+included, has the four ghost ledgers (timer operations, notify-table operations, thread-record and instance
+creations/destructions), and so has the state the held snapshot was taken in; the loaded state's timer, notify table,
+record ids and instance ids are the snapshot's, so its ledgers are the snapshot state's.  The facts about *every*
+history then apply (they are theorems about histories, not about how the state was reached). -/
+
+/-- **The ledgers exist after any commands, and loading restores the snapshot's history, trace level.** -/
+theorem C09_trace_ledgers_all_commands {s : State} {k : Option Snap} (h : ReachableSL s k) :
+    Ledgers s ∧ (∀ k0, k = some k0 → ∃ s0, Ledgers s0 ∧ k0 = save s0 ∧
+      ∀ X, (load X k0).timer = s0.timer ∧ (load X k0).notify = s0.notify ∧ absT (load X k0) = absT s0 ∧
+        absI (load X k0) = absI s0) := by
+  obtain ⟨h1, h2⟩ := reachableSL_ledgers h
+  refine ⟨h1, ?_⟩
+  intro k0 hk
+  subst hk
+  obtain ⟨s0, hs0, hk0⟩ := h2
+  subst hk0
+  refine ⟨s0, hs0, rfl, fun X => ⟨rfl, rfl, ?_, rfl⟩⟩
+  unfold absT
+  simp [load, save, List.map_map, Function.comp]
+
+/-- **The trace-level clauses hold after any commands** (instances of the theorems about every history): in the
+    ledgers of a state reached with `save`/`load` among the commands, every timer resumption happened at a frame
+    time `≥` its due time and the registered waits are exactly the resumed, cancelled and pending ones; every listener
+    a notify finds registered was registered earlier in the ledger; thread and instance ids are never reused and
+    destroyed at most once. -/
+theorem C09_trace_clauses_all_commands {s : State} {k : Option Snap} (h : ReachableSL s k) :
+    (∃ ops : List TOp, (TRun.run {} ops).t = s.timer ∧ (∀ x ∈ (TRun.run {} ops).returned, x.1.2 ≤ x.2) ∧
+      (TRun.run {} ops).added.Perm
+        ((TRun.run {} ops).returned.map (·.1) ++ (TRun.run {} ops).removed ++ s.timer.elems)) ∧
+    (∃ ops : List NOp, nRun [] ops = s.notify ∧
+      ∀ (pre post : List NOp) (src name : Nat), ops = pre ++ NOp.notify src name :: post →
+        ∀ x ∈ Tbl.getD (nRun [] pre) (src, name), NOp.reg src name x ∈ pre) ∧
+    (∃ opsT opsI : List POp, pRun pool0T opsT = some (absT s) ∧ pRun pool0I opsI = some (absI s) ∧
+      (created pool0T opsT).Nodup ∧ (created pool0I opsI).Nodup ∧
+      (∀ t, opsT.count (POp.del t) ≤ 1) ∧ (∀ i, opsI.count (POp.del i) ≤ 1)) := by
+  obtain ⟨⟨o1, h1⟩, ⟨o2, h2⟩, ⟨o3, h3⟩, ⟨o4, h4⟩⟩ := (reachableSL_ledgers h).1
+  refine ⟨⟨o1, by rw [timerRun_of_run]; exact h1, C06_never_early o1, ?_⟩, ⟨o2, h2, ?_⟩,
+    ⟨o3, o4, h3, h4, created_nodup _ _, created_nodup _ _,
+      fun t => del_count_le_one o3 t pool0T_good h3, fun i => del_count_le_one o4 i pool0I_good h4⟩⟩
+  · have hp : (TRun.run {} o1).added.Perm ((TRun.run {} o1).returned.map (·.1) ++ (TRun.run {} o1).removed ++
+        (TRun.run {} o1).t.elems) := C06_exactly_once o1
+    rw [timerRun_of_run] at hp
+    rw [h1] at hp
+    exact hp
+  · intro pre post src name _ x hx
+    rcases nRun_mem pre [] (src, name) x hx with e | e
+    · simp [Tbl.getD, Tbl.find] at e
+    · exact e
 
 end Morfuse.Sched
